@@ -1242,7 +1242,6 @@ class BDD(dd._abc.BDD[_Ref]):
             v, w = -v, -w
         return (v, w)
 
-    @_try_to_reorder
     def cofactor(
             self,
             u:
@@ -1251,6 +1250,24 @@ class BDD(dd._abc.BDD[_Ref]):
                 _Assignment
             ) -> _Ref:
         """Replace variables in `u` with Booleans."""
+        # keys that are levels refer to the variable order
+        # at the time of this call: the method below
+        # can be called twice (when the variables are reordered)
+        level_values = self._map_to_level(values)
+        values = {
+            self.var_at_level(i): value
+            for i, value in level_values.items()}
+        return self._cofactor_vars(u, values)
+
+    @_try_to_reorder
+    def _cofactor_vars(
+            self,
+            u:
+                _Ref,
+            values:
+                dict[_VariableName, bool]
+            ) -> _Ref:
+        """Replace the variables `values` in `u` with Booleans."""
         level_values = self._map_to_level(values)
         cache = dict()
         ordvar = sorted(level_values)
@@ -1346,9 +1363,15 @@ class BDD(dd._abc.BDD[_Ref]):
         """
         # `qvars` can be an iterator, and
         # the method below can be called twice
-        # (when the variables are reordered)
+        # (when the variables are reordered).
+        # Levels refer to the variable order
+        # at the time of this call.
+        levels = self._map_to_level(set(qvars))
+        qvars = {
+            self.var_at_level(i)
+            for i in levels}
         return self._quantify_vars(
-            u, set(qvars), forall)
+            u, qvars, forall)
 
     @_try_to_reorder
     def _quantify_vars(
